@@ -4,7 +4,7 @@ blocks with the statement text obtained from coqtop, for pasting into Properties
 import subprocess, sys, re
 def stmt(imports, lemma):
     src = imports + "\nSet Printing Width 96.\nSet Printing Depth 1000.\nCheck (%s).\n" % lemma
-    out = subprocess.run(["coqtop", "-Q", "/verif/coq", "SMD", "-quiet"], input=src, text=True, capture_output=True).stdout
+    out = subprocess.run(["coqtop", "-Q", __import__("os").environ.get("COQROOT", "/verif/coq"), "SMD", "-quiet"], input=src, text=True, capture_output=True).stdout
     m = re.search(re.escape(lemma.split('.')[-1]) + r"\s*\n?\s*:\s(.*?)(?=\n\s*\nCoq <|\nCoq <|\Z)", out, re.S)
     return m.group(1).strip()
 if __name__ == "__main__":
